@@ -271,6 +271,10 @@ def run_case(scn: dict, sched: Optional[dict] = None, want_world: bool = False) 
     ctl = vloop.Controller(policy, max_decisions=sched.get("max_decisions", 20000),
                            spin_budget=sched.get("spin_budget", 20000))
     loop = vloop.VLoop(ctl)
+    unhandled: List[str] = []
+    if sched.get("keep_tasks"):
+        loop.set_exception_handler(lambda lp, ctx: unhandled.append(
+            (str(ctx.get("message", "")) + " " + repr(ctx.get("exception", "")))[:240]))
     if not atomic:
         rec.ctl = ctl
     else:
@@ -342,8 +346,9 @@ def run_case(scn: dict, sched: Optional[dict] = None, want_world: bool = False) 
         ctl.finished = True
         try:
             if world is not None and not world.loop.is_closed():
-                for t in asyncio.all_tasks(loop):
-                    t.cancel()
+                if not sched.get("keep_tasks"):
+                    for t in asyncio.all_tasks(loop):
+                        t.cancel()
                 world.shutdown()
             elif world is None and not loop.is_closed():
                 loop.close()
@@ -358,6 +363,13 @@ def run_case(scn: dict, sched: Optional[dict] = None, want_world: bool = False) 
             dbg.disable()
         except Exception:
             pass
+    if sched.get("keep_tasks"):
+        # C14: what mosaik itself left behind (nothing was cancelled by the harness)
+        import gc
+        gc.collect()
+        trace["pending_at_close"] = list(getattr(loop, "pending_at_close", None) or [])
+        trace["loop_closed"] = loop.is_closed()
+        trace["loop_unhandled"] = list(unhandled)
     trace["events"] = rec.events
     trace["logs"] = list(LOGS)
     trace["pywarnings"] = pywarn
